@@ -276,3 +276,14 @@ func vJSON(x any) string {
 	b, _ := json.Marshal(x)
 	return string(b)
 }
+
+// vScratchDir returns a directory for short-lived per-process scratch files (tmpfs when available).
+func vScratchDir() string {
+	if st, err := os.Stat("/dev/shm"); err == nil && st.IsDir() {
+		d := "/dev/shm/verif-scratch"
+		if os.MkdirAll(d, 0o755) == nil {
+			return d
+		}
+	}
+	return vEnv.Work
+}
